@@ -27,6 +27,7 @@ const winEndMs = uint64(4000000000000)
 type genSpan struct {
 	T, S, P uint64 // numeric ids (P = 0: root); S and P carry sidPrefix
 	SvcI, NameI int // indices into svcPool / name table
+	SentI       int // index of the service name the resource sends (kinds 0,4,5)
 	Span
 }
 
@@ -63,7 +64,9 @@ func sidHex(s uint64) string {
 	return fmt.Sprintf("%016x", s)
 }
 
-var svcPool = []string{"A", "B", "C", "checkout", "db", "auth-svc", "X1", "X2", "Y1", "Y2"}
+var svcPool = []string{"A", "B", "C", "checkout", "db", "auth-svc", "X1", "X2", "Y1", "Y2", ""}
+
+const svcNone = 10 // index of "": the service of a span whose resource carries no service.name
 
 const nSvc = 6 // the last four names are used by the crossjoin stream only
 
@@ -259,8 +262,63 @@ func genForest(r *vhlib.Rng, ntr, maxSpans int, mal bool) ([]genSpan, []string) 
 	return gs, kinds
 }
 
+// assignResources cuts every OTLP request (batch) into ResourceSpans entries: a new entry starts with
+// the batch, with a change of service, and at random; about 30% of the entries (when unnamed is set) carry
+// no service name (nil Resource / attributes without service.name / a non-string service.name) in any
+// position, and their spans must be stored with service "".
+func assignResources(r *vhlib.Rng, e *E2E, unnamed bool, splitPct int) {
+	pos, res := 0, 0
+	orig := make([]int, len(e.gs))
+	for i := range e.gs {
+		orig[i] = e.gs[i].SvcI
+	}
+	for _, n := range e.Sc.Batches {
+		kind, split := 0, false
+		for i := pos; i < pos+n && i < len(e.gs); i++ {
+			if i == pos || orig[i] != orig[i-1] || r.Chance(splitPct) {
+				res++
+				kind = vhlib.Pick(r, []int{0, 0, 0, 4, 5})
+				if unnamed && r.Chance(30) {
+					kind = vhlib.Pick(r, []int{1, 2, 3})
+				}
+				split = r.Chance(25)
+			}
+			g := &e.gs[i]
+			g.R, g.RK, g.RS, g.SvcN, g.SentI = res, kind, split, svcPool[orig[i]], orig[i]
+			if kind >= 1 && kind <= 3 {
+				g.setSvc(svcNone)
+			}
+			e.Sc.Spans[i] = g.Span
+		}
+		pos += n
+	}
+}
+
 func genE2E(r *vhlib.Rng, kind string) *E2E {
+	e := genE2E0(r, kind)
+	if e == nil {
+		return nil
+	}
 	switch kind {
+	case "main", "malformed", "dupid", "big", "huge":
+		assignResources(r, e, true, 15)
+	case "otlp":
+		assignResources(r, e, true, 45)
+	default: // known-class streams keep their services
+		assignResources(r, e, false, 15)
+	}
+	return e
+}
+
+func genE2E0(r *vhlib.Rng, kind string) *E2E {
+	switch kind {
+	case "otlp": // many small ResourceSpans entries per request, named and unnamed in all positions
+		gs, _ := genForest(r, 2+r.Intn(5), 60, false)
+		e := finish(r, kind, gs, r.Intn(3))
+		if len(e.Sc.Batches) > 3 {
+			e.Sc.Batches = []int{len(gs) / 2, len(gs) - len(gs)/2}
+		}
+		return e
 	case "main": // well-formed forests of at most 100 spans: all four views are exact
 		gs, _ := genForest(r, 1+r.Intn(9), 100, false)
 		e := finish(r, kind, gs, r.Intn(3))
@@ -592,6 +650,38 @@ func oracle(e *E2E, o *WorkerObs, sum *vhlib.Summary) {
 		}
 	}
 
+	// ---- stored events: every span is stored once, with the service of its own resource ----
+	if !hp("query of index traces", o.StoredErr) && o.StoredErr == "" && total <= 9000 {
+		want := map[string]int{}
+		for _, x := range e.Sc.Spans {
+			want[x.T+"/"+x.S+"/"+x.Svc]++
+		}
+		got := map[string]int{}
+		for _, x := range o.Stored {
+			got[x.T+"/"+x.S+"/"+x.Svc]++
+		}
+		for _, x := range e.Sc.Spans {
+			k := x.T + "/" + x.S + "/" + x.Svc
+			if got[k] != want[k] {
+				other := ""
+				for _, y := range o.Stored {
+					if y.T == x.T && y.S == x.S {
+						other = y.Svc
+					}
+				}
+				if other != "" || got[k] > 0 {
+					fail("span_stored_wrong_service", fmt.Sprintf("span %s of trace %s sent in a ResourceSpans entry of kind %d (service %q expected) is stored with service %q", x.S, x.T, x.RK, x.Svc, other), x.T)
+				} else {
+					fail("span_stored_missing", fmt.Sprintf("span %s of trace %s is not in index traces", x.S, x.T), x.T)
+				}
+				break
+			}
+		}
+		if len(o.Stored) != total {
+			fail("span_stored_count", fmt.Sprintf("%d spans ingested, %d stored", total, len(o.Stored)))
+		}
+	}
+
 	// ---- search ----
 	listed := map[string]int{}
 	aborted := false
@@ -707,14 +797,19 @@ func oracle(e *E2E, o *WorkerObs, sum *vhlib.Summary) {
 			if !ok {
 				fail("cross_trace_attribution", fmt.Sprintf("tree of trace %s contains span %s which is not a span of that trace", t, n.SpanID), t)
 			} else {
-				okp := false
+				okp, okf := false, false
 				for _, c := range cs {
-					if c.P == parent && c.Name == n.Operation && c.Svc == n.Service {
+					if c.P == parent {
 						okp = true
+						if c.Name == n.Operation && c.Svc == n.Service {
+							okf = true
+						}
 					}
 				}
 				if !okp {
 					fail("span_tree_wrong_parent", fmt.Sprintf("trace %s: span %s (%s/%s) sits under %q", t, n.SpanID, n.Service, n.Operation, parent), t)
+				} else if !okf {
+					fail("span_tree_wrong_fields", fmt.Sprintf("trace %s: span %s is shown with service %q operation %q, ingested with %q/%q", t, n.SpanID, n.Service, n.Operation, cs[0].Svc, cs[0].Name), t)
 				}
 			}
 			for _, c := range n.Children {
@@ -860,11 +955,32 @@ func coqE(g genSpan) string {
 func coqScenario(idx int, e *E2E, o *WorkerObs) (defs string, ncases int) {
 	var sb strings.Builder
 	rname := fmt.Sprintf("r%d", idx)
-	items := make([]string, len(e.gs))
-	for i, g := range e.gs {
-		items[i] = coqE(g)
+	// the OTLP requests as sent: request -> ResourceSpans entries -> spans; the model derives the events
+	var reqs []string
+	pos := 0
+	for _, n := range e.Sc.Batches {
+		var ress []string
+		var cur []string
+		flushRes := func(g genSpan) {
+			if len(cur) > 0 {
+				ress = append(ress, fmt.Sprintf("R1 %d %d %s [%s]", g.RK, g.SentI, vhlib.CoqBool(g.RS), strings.Join(cur, ";\n    ")))
+				cur = nil
+			}
+		}
+		for i := pos; i < pos+n && i < len(e.gs); i++ {
+			g := e.gs[i]
+			if i > pos && g.R != e.gs[i-1].R {
+				flushRes(e.gs[i-1])
+			}
+			cur = append(cur, fmt.Sprintf("O1 %d %d %d %d %s %s %d", g.T, small(g.S), small(g.P), g.NameI, coqT(g.Start), coqT(g.End), g.St))
+		}
+		if pos+n-1 < len(e.gs) && n > 0 {
+			flushRes(e.gs[pos+n-1])
+		}
+		reqs = append(reqs, "["+strings.Join(ress, ";\n   ")+"]")
+		pos += n
 	}
-	fmt.Fprintf(&sb, "Definition %s : list span := %s.\n", rname, vhlib.CoqListNL(items))
+	fmt.Fprintf(&sb, "Definition q%d : list (list otlp_resource) := %s.\nDefinition %s : list span := events_of q%d.\n", idx, vhlib.CoqListNL(reqs), rname, idx)
 	// candidate record orders: with a duplicated span id the record the real code kept is unknown
 	cands := "[" + rname + "]"
 	if e.dupIDs {
@@ -884,6 +1000,29 @@ func coqScenario(idx int, e *E2E, o *WorkerObs) (defs string, ncases int) {
 	}
 	var checks []string
 	total := len(e.gs)
+	// the stored events: every span carries the service of its own resource
+	if o.StoredErr == "" && total <= 9000 {
+		okSt := true
+		var st []string
+		for _, x := range o.Stored {
+			tn, ok1 := tnum[x.T]
+			sn, ok2 := snum[x.S]
+			si := -1
+			for k, v := range svcPool {
+				if v == x.Svc {
+					si = k
+				}
+			}
+			if !ok1 || !ok2 || si < 0 {
+				okSt = false // reported by the oracle
+				break
+			}
+			st = append(st, fmt.Sprintf("(%d,%d,%d%%nat)", tn, small(sn), si))
+		}
+		if okSt {
+			checks = append(checks, fmt.Sprintf("check_stored %s [%s]", rname, strings.Join(st, ";")))
+		}
+	}
 	// search
 	okSearch := true
 	var pages []string
@@ -973,13 +1112,13 @@ func streamE2E(cfg vhlib.Config, r *vhlib.Rng, sum *vhlib.Summary) {
 	plan := []struct {
 		kind string
 		n    int
-	}{{"main", 40}, {"malformed", 30}, {"dupid", 8}, {"big", 2}, {"huge", 2},
+	}{{"main", 36}, {"otlp", 10}, {"malformed", 26}, {"dupid", 8}, {"big", 2}, {"huge", 2},
 		{"deppage", 2}, {"multiroot", 2}, {"crossjoin", 2}, {"manytraces", 2}, {"numid", 2}} // the last five: known-defect classes, own generator streams
 	if cfg.Thorough() {
 		plan = []struct {
 			kind string
 			n    int
-		}{{"main", 700}, {"malformed", 600}, {"dupid", 150}, {"big", 60}, {"huge", 40}, {"deppage", 10}, {"multiroot", 10}, {"crossjoin", 10}, {"manytraces", 10}, {"numid", 10}}
+		}{{"main", 600}, {"otlp", 200}, {"malformed", 500}, {"dupid", 150}, {"big", 60}, {"huge", 40}, {"deppage", 10}, {"multiroot", 10}, {"crossjoin", 10}, {"manytraces", 10}, {"numid", 10}}
 	}
 	var all []*E2E
 	for _, p := range plan {
